@@ -311,14 +311,15 @@ def run_check(prop, tier, seed, replay=None):
         if tier == "thorough" and not [f for f in res.failures if not f.get("known")] and not res.disagreements:
             # thorough: the same exploration under three further generator seeds (grids are simply repeated, randomised
             # families see new schemas / values / schedules)
-            for j in (1, 2, 3):
+            extra_seeds = list(range(1, 1 + getattr(mod, "THOROUGH_SEEDS", 3)))
+            for j in extra_seeds:
                 cj = Ctx(prop, tier, seed * 1000 + 7 * j)
                 cj.model, cj.model_ok = ctx.model, ctx.model_ok
                 rj = mod.run(cj)
                 rule, exh = res.rule, res.exhaustive
                 res.merge(rj)
                 res.rule, res.exhaustive = rule, exh
-            res.extra["thorough_seeds"] = [seed] + [seed * 1000 + 7 * j for j in (1, 2, 3)]
+            res.extra["thorough_seeds"] = [seed] + [seed * 1000 + 7 * j for j in extra_seeds]
     except Exception as e:  # noqa
         # the harness could not drive the implementation (an interface it relies on changed): the correspondence
         # no longer checks -- go on to the search phase; without a failing input this ends as no-failing-input-found
